@@ -55,6 +55,8 @@ class RedisMessageBroker(MessageBrokerT):
                 qnc(key.queue, key.priority, delayed=True),
                 {mnc(key, short=True): str(delay_until)},
             )
+            # remembered, so that a message taken from the delayed set can be returned to its slot
+            pipe.hset(mnc(key), "_due", str(delay_until))
 
     def __mark_dead(self, key: RoutingKeyT, pipe: Pipeline) -> None:
         pipe.lpush(qnc(key.queue, key.priority, dead=True), mnc(key, short=True))
@@ -105,7 +107,7 @@ class RedisMessageBroker(MessageBrokerT):
 
         raw_params: list[bytes | None] = await self.conn.hmget(
             mnc(key),
-            keys=["parameters", "_reject_to"],
+            keys=["parameters", "_reject_to", "_due"],
         )
 
         if raw_params[0] is None or raw_params[1] is None:
@@ -126,10 +128,15 @@ class RedisMessageBroker(MessageBrokerT):
             if reject_to == "dead":
                 self.__mark_dead(key, pipe)
             else:
+                delay_until = utils.wait_timestamp(params)
+                if reject_to == "d" and raw_params[2] is not None:
+                    # back to the slot it was taken from: the due time of a recurring message that
+                    # has not run yet must not be computed anew (that would put it off by a period)
+                    delay_until = int(raw_params[2].decode())
                 self.__put_in_queue(
                     key,
                     pipe,
-                    delay_until=utils.wait_timestamp(params),
+                    delay_until=delay_until,
                     in_front=True,
                 )
             self.__unmark_processing(key, pipe)
